@@ -96,6 +96,23 @@ def scenarios(tier):
                         features={'table': tname.split('-')[0], 'rewrite': rewrite, 'request': rname,
                                   'n_matching': len(matching), '_matching': matching, '_path': path,
                                   '_method': method, '_body': body, '_bound': 2}))
+    # follow-up request on a keep-alive connection whose route names another port of the same host
+    # (and another host): the SECOND request must go to the second route's host and port
+    for tname, static in (('fu-samehost', [(r'/a$', [URLS[0]]), (r'/b$', [URLS[1]])]),
+                          ('fu-otherhost', [(r'/a$', [URLS[2]]), (r'/b$', [URLS[3]])])):
+        klass = plugins.reverse(static, {}, name='VerifRev_' + tname.replace('-', '_'))
+        for rewrite in (False, True):
+            fa = ['--threadless', '--enable-reverse-proxy'] + (['--rewrite-host-header'] if rewrite else [])
+            for order in (('/a', '/b'), ('/b', '/a'), ('/a', '/a')):
+                script = []
+                for pth in order:
+                    script += [('send', REQS[0][1](pth.encode())), ('wait_idle',)]
+                script += [('close',)]
+                out.append(Scenario('%s/%s/%s' % (tname, 'rw' if rewrite else 'norw', '+'.join(order)), fa,
+                                    flags_opts={'plugins': [klass]}, mode='local', clients=[dict(script=script)],
+                                    origins=origins(), dns=DNS, kinds='', horizon=400,
+                                    features={'table': 'followup', 'rewrite': rewrite, 'request': 'GET', 'n_matching': 1,
+                                              '_followup': [dict(static)[r'%s$' % p][0] for p in order], '_bound': 0}))
     return out
 
 
@@ -114,6 +131,22 @@ def check(w):
     c = w.clients[0]
     rx = bytes(c.rx)
     out = []
+    if '_followup' in f:
+        want = [url_facts(u) for u in f['_followup']]
+        # requests as seen by the origins, in arrival order per origin address
+        seen = []
+        for oc in w.origin_conns:
+            for rq in getattr(oc, 'requests', []):
+                seen.append((oc.addr, rq['target']))
+        want_seen = [((DNS[cf[1]], cf[2]), cf[3]) for cf in want]
+        if sorted(seen) != sorted(want_seen):
+            out.append({'symptom': 'followup_request_not_forwarded_to_its_route_upstream', 'features': {},
+                        'detail': {'seen': seen, 'want': want_seen, 'connect_log': w.connect_log}})
+        res, rest = oracles.parse_responses(rx, [b'GET'] * len(want), eof=False)
+        bodies = [r['body'] for r in res if r['ok']]
+        if len(bodies) != len(want):
+            out.append({'symptom': 'followup_request_not_answered', 'features': {}, 'detail': {'bodies': bodies}})
+        return out
     matching = f['_matching']
     detail = {'connect_log': w.connect_log, 'rx': rx[:200], 'matching': matching}
 
